@@ -18,6 +18,15 @@ import Skc.Tie.rank_values
 import Skc.Tie.electre1_outrank
 import Skc.Tie.electre1_kernel
 import Skc.Tie.fmf
+import Skc.Tie.negate_minimize
+import Skc.Tie.invert_minimize
+import Skc.Tie.dominance_eq_where
+import Skc.Tie.dominance_aDb_where
+import Skc.Tie.dominance_bDa_where
+import Skc.Tie.dominance_eq
+import Skc.Tie.dominance_aDb
+import Skc.Tie.dominance_bDa
+import Skc.Tie.push_negatives_M
 import Skc.Tie.wsm_refuses
 import Skc.Tie.wpm_refuses
 import Skc.Tie.fmf_refuses
@@ -30,6 +39,8 @@ import Skc.Props.C03
 import Skc.Props.C04
 import Skc.Props.C05
 import Skc.Props.C06
+import Skc.Props.C07
+import Skc.Props.C12
 import Skc.Props.C08
 import Skc.Props.C11
 import Skc.Props.C13
@@ -167,6 +178,41 @@ theorem ratio_weights_scaled (A : Mat m n α) (o : Vec n Obj) (w : Vec n α) (c 
 theorem concordance_criteria_relisted (A : Mat m n α) (o : Vec n Obj) (w : Vec n α) (τ : Equiv.Perm (Fin n)) (a b : Fin m) :
     (Gen.concordance ⟨fun i j => A i (τ j)⟩ (objs (o ∘ τ)) ⟨w ∘ τ⟩).v a b = (Gen.concordance ⟨A⟩ (objs o) ⟨w⟩).v a b := by
   unfold objs; rw [tie_concordance, tie_concordance]; exact C05.concordance_col_perm A o w τ a b
+
+/-! ### C12: the regenerated transformers never reverse a preference -/
+
+/-- the mask `_transform_data` hands to `_invert`: `objectives == MIN` -/
+def minMask (o : Vec n Obj) : A1 n Bool := ⟨fun j => decide (o j = .min)⟩
+
+/-- `NegateMinimize._invert`, any data: `a` better than `b` on criterion `j` before ⇔ better afterwards under "maximise" -/
+theorem negate_minimize_better_iff (A : Mat m n α) (o : Vec n Obj) (j : Fin n) (a b : Fin m) :
+    better (o j) (A a j) (A b j) ↔
+      better .max ((Gen.negate_minimize ⟨A⟩ (minMask o)).v a j) ((Gen.negate_minimize ⟨A⟩ (minMask o)).v b j) := by
+  unfold minMask; rw [tie_negate_minimize]; exact C12.negate_better_iff A o j a b
+/-- `InvertMinimize._invert`, positive data on the minimise criteria -/
+theorem invert_minimize_better_iff (A : Mat m n α) (o : Vec n Obj) (j : Fin n) (hpos : o j = .min → ∀ i, 0 < A i j) (a b : Fin m) :
+    better (o j) (A a j) (A b j) ↔
+      better .max ((Gen.invert_minimize ⟨A⟩ (minMask o)).v a j) ((Gen.invert_minimize ⟨A⟩ (minMask o)).v b j) := by
+  unfold minMask; rw [tie_invert_minimize]; exact C12.invert_better_iff A o j hpos a b
+/-- `push_negatives(matrix, axis=0)` keeps the order (and the ties) within every criterion -/
+theorem push_negatives_order_iso (A : Mat m n α) (j : Fin n) (a b : Fin m) :
+    (A a j < A b j ↔ (Gen.push_negatives_M ⟨A⟩).v a j < (Gen.push_negatives_M ⟨A⟩).v b j) ∧
+    (A a j = A b j ↔ (Gen.push_negatives_M ⟨A⟩).v a j = (Gen.push_negatives_M ⟨A⟩).v b j) := by
+  rw [tie_push_negatives_M]; exact C12.pushneg_order_iso A j a b
+
+/-! ### C07: `utils/rank.py::dominance`, the comparison kernel behind `dm.dominance` -/
+
+/-- the three masks are the definition, criterion by criterion (`reverse` = `dm.minwhere`) -/
+theorem dominance_where_iff (o : Vec n Obj) (a b : Vec n α) (j : Fin n) :
+    ((Gen.dominance_aDb_where ⟨a⟩ ⟨b⟩ ⟨Dom.revOf o⟩).v j = true ↔ better (o j) (a j) (b j)) ∧
+    ((Gen.dominance_bDa_where ⟨a⟩ ⟨b⟩ ⟨Dom.revOf o⟩).v j = true ↔ better (o j) (b j) (a j)) ∧
+    ((Gen.dominance_eq_where ⟨a⟩ ⟨b⟩ ⟨Dom.revOf o⟩).v j = true ↔ a j = b j) := by
+  rw [tie_dominance_aDb_where, tie_dominance_bDa_where, tie_dominance_eq_where]; exact C07.pair_where_iff o a b j
+/-- the three counts partition the criteria -/
+theorem dominance_counts (o : Vec n Obj) (a b : Vec n α) :
+    (Gen.dominance_eq ⟨a⟩ ⟨b⟩ ⟨Dom.revOf o⟩).v + (Gen.dominance_aDb ⟨a⟩ ⟨b⟩ ⟨Dom.revOf o⟩).v +
+      (Gen.dominance_bDa ⟨a⟩ ⟨b⟩ ⟨Dom.revOf o⟩).v = n := by
+  rw [tie_dominance_eq, tie_dominance_aDb, tie_dominance_bDa]; exact C07.pair_counts o a b
 
 /-! ### C04, the refusal clause: when do the decision makers raise `ValueError`, as read from their `_evaluate_data` -/
 
